@@ -527,6 +527,9 @@ type FuncContract struct {
 	Inline   bool
 	Pure     bool
 	Trusted  bool   // external: assumed, never verified
+	Iterates string // this function's only effects besides Assigns are calls of the named callback parameter (or captured variable)
+	Callback bool   // contract of a callback parameter: may write any object older than the enclosing function's entry, except Preserves
+	Preserves []AssignItem
 	ReadsArgs bool  // external: documented not to write its receiver/arguments themselves (callbacks aside)
 	Params   []string // explicit parameter names for externals (optional)
 	Results  []string
@@ -578,7 +581,7 @@ type ContractFile struct {
 var clauseKeywords = map[string]bool{
 	"func": true, "requires": true, "ensures": true, "check": true, "defines": true, "assigns": true, "loop": true,
 	"ghost": true, "pred": true, "define": true, "axiom": true, "lemma": true, "inline": true,
-	"invariant": true, "decreases": true, "trusted": true, "pure": true, "readsargs": true, "note": true, "unroll": true, "ginv": true, "like": true, "frame": true,
+	"invariant": true, "decreases": true, "trusted": true, "pure": true, "readsargs": true, "iterates": true, "callback": true, "preserves": true, "note": true, "unroll": true, "ginv": true, "like": true, "frame": true,
 }
 
 // ParseContractFile reads //@ lines (or all lines if raw is true).
@@ -719,6 +722,36 @@ func ParseContractFile(path, pkg string, raw bool) (*ContractFile, error) {
 		case "readsargs":
 			if cur != nil {
 				cur.ReadsArgs = true
+			}
+		case "iterates":
+			if cur == nil {
+				return nil, fmt.Errorf("%s: iterates outside func", where)
+			}
+			cur.Iterates = strings.TrimSpace(c.text)
+		case "callback":
+			if cur == nil {
+				return nil, fmt.Errorf("%s: callback outside func", where)
+			}
+			cur.Callback = true
+		case "preserves":
+			if cur == nil {
+				return nil, fmt.Errorf("%s: preserves outside func", where)
+			}
+			for _, part := range splitTop(c.text, ',') {
+				part = strings.TrimSpace(part)
+				if strings.HasPrefix(part, "@") {
+					fr, ok := frames[part[1:]]
+					if !ok {
+						return nil, fmt.Errorf("%s: unknown frame %s", where, part)
+					}
+					cur.Preserves = append(cur.Preserves, fr...)
+					continue
+				}
+				items, err := parseAssigns(part, where)
+				if err != nil {
+					return nil, err
+				}
+				cur.Preserves = append(cur.Preserves, items...)
 			}
 		case "pure":
 			if cur == nil {
@@ -960,6 +993,8 @@ func parseAssigns(text, where string) ([]AssignItem, error) {
 	for _, part := range splitTop(text, ',') {
 		part = strings.TrimSpace(part)
 		switch {
+		case strings.HasPrefix(part, "callback(") && strings.HasSuffix(part, ")"):
+			items = append(items, AssignItem{Kind: "callback", Name: strings.TrimSpace(part[9 : len(part)-1])})
 		case strings.HasPrefix(part, "all(") && strings.HasSuffix(part, ")"):
 			// all(T): every object of type T (a whole heap component)
 			lx, err := lex(part[4:len(part)-1], where)
